@@ -171,11 +171,10 @@ def r4(idx, rep):
             interp.record_call("child.matches", dict(frozen=interp.store.get("self.matcher.csvpath.is_frozen", "unset")))
             return interp.choose("child", [True, False, None], memo=False)
 
-        it = Interp(idx, types={"self": "Last"},
-                    domains={LAST: [True, False], LASTSCAN: [True, False], "self.matcher.csvpath.scanner": [Obj("scanner"), None]},
-                    handlers={".matches": child})
+        it = Interp(idx, types={"self": "Last"}, handlers={".matches": child})
         store = {"self.children": [Obj("c0")][:nchild], "self.matcher.csvpath.is_frozen": True}
-        for p in it.run_all(fi, store=store):
+        for p in it.run_eager(fi, {LAST: [True, False], LASTSCAN: [True, False], "self.matcher.csvpath.scanner": [Obj("scanner"), None]}, store=store):
+            p.choices = list(p.cfg.items()) + list(p.choices)
             nrows += 1
             last = p.atom(LAST)
             sc = p.atom("self.matcher.csvpath.scanner")
